@@ -100,6 +100,22 @@ void hv_case(uint64_t index)
   if (index % 3 == 1 && ncorpus) {
     const char *path = corpus[(index / 3) % ncorpus];
     hv_desc("source: xml %s config %s\n", path, cs.s);
+    /* nothing is lost by the importer itself: with every type kept and disallowed resources included, the loaded topology has exactly
+     * one object per <object> element of the document (holds for every bundled file; a dropped element would otherwise be invisible to
+     * the round trip, which starts from what the importer kept) */
+    if ((index / 3) / ncorpus % 4 == 0) {
+      size_t flen = 0; char *ftxt = tl_read_file(path, &flen);
+      hwloc_topology_t tk; hwloc_topology_init(&tk); hwloc_topology_set_all_types_filter(tk, HWLOC_TYPE_FILTER_KEEP_ALL); hwloc_topology_set_flags(tk, HWLOC_TOPOLOGY_FLAG_INCLUDE_DISALLOWED);
+      hv_ctxkey("keepall_load");
+      if (ftxt && hwloc_topology_set_xml(tk, path) == 0 && hwloc_topology_load(tk) == 0) {
+        unsigned tags = 0; for (const char *q = ftxt; (q = strstr(q, "<object ")) != NULL; q++) tags++;
+        struct tv_view vw; tv_view_build(tk, &vw, 0);
+        if (vw.n != tags) hv_viol("import.objects_lost", "%s has %u <object> elements, the topology loaded with every type kept and disallowed resources included has %u objects", path, tags, vw.n);
+        tv_view_free(&vw); hv_stat("import.object_counts_compared", 1);
+      }
+      hwloc_topology_destroy(tk); free(ftxt);
+      hv_ctxkey("source_load");
+    }
     t = tl_load_xmlfile(path, &c, &stage);
   } else {
     struct tg_synth_opts o; tg_synth_opts_default(&o); o.max_pus = 64;
